@@ -18,6 +18,7 @@ import TlsModel.Gen.Wrappers
     getall <tls13 0|1> <records>   records: type:ssl2:hex;...  -> everything _getNextRecord delivers
     asmnew | asm <op> <gen>        op: inRead inWrite setHandshake setClose setWrite
                                    gen: y<v> | stop | raise    -> state and outcome
+    alertpeek <tls13> <limit>      error path of _sendMsgThroughSocket: read on until a message, classify
     wrappers                       the generated blocking-wrapper shape facts
 -/
 open Tls Tls.IO
@@ -221,6 +222,15 @@ def handle (st : St) (toks : List String) : St × Option String :=
       let es := match e with | none => "none" | some e => excName e
       ({ st with defrag := d },
        some s!"out={if gs.isEmpty then "-" else String.intercalate ";" (gs.map goutStr)} exc={es} bufs={if e.isSome then "?" else defragStr d}")
+    | none => (st, none)
+  | ["alertpeek", t13, lim] =>
+    match lim.toNat? with
+    | some lim =>
+      let cfg : RSCfg := { recvRecordLimit := lim }
+      let f (r : PeekRes) : String := match r with
+        | .remoteAlert l d => s!"remoteAlert:{l}:{d}" | .originalError => "originalError"
+      let fuel := (upstream st).length + 2
+      runR st (alertPeek cfg (t13 == "1") fuel tlsDefrag) (alertPeek cfg (t13 == "1") fuel tlsDefrag) f
     | none => (st, none)
   | ["asmnew"] => ({ st with asm := {} }, some (asmStr {}))
   | ["asmset", h, c, r, w, res] =>
